@@ -411,6 +411,7 @@ func runC11(w *W) {
 			before[i] = snapshotStmt(s)
 		}
 		firstOut := make([]string, len(obs.Stmts))
+		firstAll := ""
 		bad := false
 		for rep := 0; rep < 3 && !bad; rep++ {
 			for i, s := range obs.Stmts {
@@ -429,7 +430,12 @@ func runC11(w *W) {
 				}
 			}
 			es := safeExplainStatements(obs.Stmts)
-			_ = es
+			if rep == 0 {
+				firstAll = es.Out + fmt.Sprint(es.Panicked)
+			} else if es.Out+fmt.Sprint(es.Panicked) != firstAll {
+				w.Report(Finding{Kind: "not-repeatable", Key: "not-repeatable@ExplainStatements", Input: in, InputHex: hexs([]byte(input)), Detail: fmt.Sprintf("call %d of ExplainStatements returned different output than call 1", rep+1)})
+				bad = true
+			}
 			for i, s := range obs.Stmts {
 				if a := snapshotStmt(s); a != before[i] {
 					w.Report(Finding{Kind: "mutated", Key: "mutated-by-explainstatements@" + reflect.TypeOf(s).String(), Input: in, InputHex: hexs([]byte(input)), Detail: firstDiff(before[i], a)})
@@ -466,6 +472,12 @@ func runC11(w *W) {
 			}
 		}
 		obs2 := safeParse([]byte(input), 1<<22)
+		if !obs2.Panicked && len(obs2.Stmts) == len(obs.Stmts) && len(obs2.Stmts) > 0 {
+			if es2 := safeExplainStatements(obs2.Stmts); es2.Out+fmt.Sprint(es2.Panicked) != firstAll {
+				w.Report(Finding{Kind: "history", Key: "history-dependent@ExplainStatements", Input: in, InputHex: hexs([]byte(input)),
+					Detail: "ExplainStatements of a fresh parse of the same text differs from its first output in this process: " + firstDiff(firstAll, es2.Out)})
+			}
+		}
 		if !obs2.Panicked && len(obs2.Stmts) == len(obs.Stmts) {
 			for i, s := range obs2.Stmts {
 				e := safeExplain(s)
@@ -480,7 +492,7 @@ func runC11(w *W) {
 		w.Eval([]byte(input), true)
 		if _, dup := seenOut[input]; !dup && len(seenInputs) < 4000 {
 			seenInputs = append(seenInputs, input)
-			seenOut[input] = strings.Join(firstOut, "\x01")
+			seenOut[input] = strings.Join(append(append([]string(nil), firstOut...), firstAll), "\x01") // same shape as c11Outputs
 		}
 		if w.stats.Evaluations%3000 == 1 {
 			w.Sample(in)
@@ -520,6 +532,10 @@ func c11Outputs(input string) string {
 		e := safeExplain(s)
 		m := safeMarshal(s)
 		outs[i] = e.Out + "\x00" + m.Out + "\x00" + errString(m.Err) + fmt.Sprint(e.Panicked, m.Panicked)
+	}
+	if len(obs.Stmts) > 0 {
+		es := safeExplainStatements(obs.Stmts)
+		outs = append(outs, es.Out+fmt.Sprint(es.Panicked))
 	}
 	return strings.Join(outs, "\x01")
 }
